@@ -106,6 +106,12 @@ CHECKS['C19'] = dict(level='exploration',
     note='Trusted: the SPACE hook reports what log_rule() is given and what space_text() decides (C10 checks that hooks do not change the output); trailing comments, Qt macro arguments and pairs not attributed to a user option are counted, not judged.',
     design='DESIGN.md §2 C19')
 
+CHECKS['C18'] = dict(level='exploration',
+    technique='runtime monitoring: metamorphic re-indentation invariance (leading whitespace of statement-start output lines unchanged when every input line is re-indented) and a reference model (closed-form column from the generator\'s own nesting) over generated block-structured programs and corpus files',
+    text='Grammar-generated C/C++/Java programs (one statement, brace or label per line; if/else chains, braceless bodies, for/while/do-while, switch/case with fall-through, bare blocks, namespaces, classes, own-line comments; nesting up to level 9; brace placement mixed per construct; input indentation random per line) from a fixed universe of 50k programs. Closed form: every output line must start at (brace depth + braceless nesting + enclosing case labels) x indent_columns + enclosing switches x indent_switch_case (+ indent_columns inside a namespace/class with indent_namespace/indent_class), closing braces at the column of the statement that opened the block, for indent_columns 1..16 x indent_with_tabs 0..2 x output_tab_size {2,3,4,8}, with random sp_ options that must be irrelevant. Invariance: 3 re-indentations of every line of a generated program, and 2 re-indentations of the statement-start lines of corpus files (all languages), must leave the leading whitespace of every judged output line unchanged, under model options and joint draws of options not documented to keep original columns.',
+    note='Trusted: the generator\'s own nesting bookkeeping as the expected depth (the O dump is not used); the closed form was calibrated on the pinned tree (0 disagreements in 565k lines) and is frozen in vf/props/c18.py expected_width().',
+    design='DESIGN.md §2 C18')
+
 ALL = ['C%02d' % i for i in range(1, 21)]
 
 
